@@ -528,6 +528,16 @@ theorem unmarkDeep_clean_generated {ord : Ord} (ho : OrdOk ord) {X : SetOracle} 
   obtain ⟨ms, h1, _, h3, h4⟩ := unmarkDeep_generated ho hX hσ v hg
   exact ⟨ms, h1, h3, h4⟩
 
+/-- `unmarkDeepWithPaths_agrees_unmarkDeep` for the translated pair, for EVERY value, set-iteration oracle, attribute
+order and map order: `UnmarkDeep` returns the value `UnmarkDeepWithPaths` returns, and as marks the union of the mark
+sets in its records.  (Both are the hand-written `Walk.unmarkDeepWithPaths` — `MarksFnsTie.UnmarkDeepWithPaths_eq`,
+`UnmarkDeep_eq` — whose transform never fails of its own, `transformFuel_noErr`.) -/
+theorem unmarkDeepWithPaths_agrees_unmarkDeep_generated {ord : Ord} (ho : OrdOk ord) (X : SetOracle) (σ : Walk.Sched)
+    (v : Value) :
+    Value_UnmarkDeep ord X σ v =
+      (Value_UnmarkDeepWithPaths ord X σ v).map fun q => (q.1, unionAllMarks (q.2.map (·.2))) :=
+  UnmarkDeep_tie ho X σ v
+
 /-- The translated `ContainsMarked` (a closure over `Walk`, the hand-written walk of Walk.lean) decides whether any
 value inside carries a mark, on every value of the shape the API builds (`Walk.shapedV`). -/
 theorem containsMarked_generated (ord : Ord) {X : SetOracle} (hX : Walk.IterPerm X) (σ : Walk.Sched) (v : Value)
